@@ -12,6 +12,7 @@ A case: {"prog": <G_prog dict>, "steps": [[op, ...], ...]} with steps
 """
 import ctypes
 import json
+import os
 import sys
 import threading
 import opcode
@@ -394,6 +395,16 @@ def run_case(case, delta):
     snaps = []
 
     def snap():
+        # the statistics are also read through the two other public readers, which must be as pure as get_stats(): the report printer and
+        # the dump (every third snapshot each); what is compared is get_stats() right afterwards
+        k = len(snaps) % 3
+        if k == 1:
+            import io
+            p.print_stats(io.StringIO())
+        elif k == 2:
+            import tempfile
+            with tempfile.NamedTemporaryFile(prefix='lpverif-dump-', dir=os.environ.get('LPVERIF_SCRATCH', '/var/tmp')) as fh:
+                p.dump_stats(fh.name)
         snaps.append('stats ' + canon_stats(p.get_stats().timings, labelsB, with_time))
     def renable_real():
         if p.enable_count > 0:
